@@ -4,7 +4,7 @@
 OUT=$1; shift
 export GOFLAGS=-mod=mod GOPROXY=off
 mkdir -p /tmp/vs
-for d in "$@"; do
+for d in "$@"; do d=$(realpath "$d")
   id=$(basename "$d"); p=${id%-*}
   WT=/tmp/vs/reg-$id-$$
   git -C /repo worktree add -q --detach "$WT" HEAD || continue
